@@ -28,6 +28,12 @@ def load_corpus():
 def apply_edit(root, m):
     """m['edits'] = [(relpath, old, new, count)] ; returns False if an anchor is missing."""
     import re
+    if m.get("patch"):
+        # a seeded change kept as a diff (seeded/<id>/patch.diff): apply with git (works outside a repository)
+        r = subprocess.run(["git", "apply", "--unsafe-paths", "--directory", root, m["patch"]], capture_output=True, text=True, cwd=root)
+        if r.returncode != 0:
+            r = subprocess.run(["patch", "-p1", "-s", "-i", m["patch"]], capture_output=True, text=True, cwd=root)
+        return r.returncode == 0
     for rel, old, new, *rest in m["edits"]:
         path = os.path.join(root, rel)
         if not os.path.exists(path):
